@@ -182,6 +182,15 @@ def check_read_only(repo: Repo, rep: Report):
                 dn = dotted(d) or (dotted(d.func) if isinstance(d, ast.Call) else "") or ""
                 if dn.split(".")[-1] in ("lru_cache", "cache", "cached_property"):
                     rep.bad("C13.read-only-queries", f.qualname, f"memoised:{dn.split('.')[-1]}", f"{f.qualname} is memoised with @{dn}: answers come from an earlier call's arguments' identity, not from the bytes", f.file, f.line)
+    # the same memoisation applied by hand at module level: X = functools.lru_cache(...)(f)
+    for mn in ("fickling.fickle", "fickling.analysis", "fickling.tracing", "fickling.ml", "fickling.loader"):
+        m = repo.modules.get(mn)
+        if m is None:
+            continue
+        for name, vals in m.assigns.items():
+            for v in vals:
+                if isinstance(v, ast.Call) and any((dotted(x) or "").split(".")[-1] in ("lru_cache", "cache") for x in ast.walk(v.func) if isinstance(x, (ast.Name, ast.Attribute))):
+                    rep.bad("C13.read-only-queries", f"{mn}.{name}", "memoised:lru_cache", f"`{name} = {src(v)}` is a process-wide memo: answers come from an earlier call's arguments (equal under ==/hash), not from the bytes in front of it, and objects it returns are shared between pickles", m.relpath, v.lineno)
     # (3) Interpreter / Trace / ASTProperties never write the Pickled they read
     for cq in ("fickling.fickle.Interpreter", "fickling.tracing.Trace", "fickling.fickle.ASTProperties", "fickling.fickle.ModuleBody", "fickling.fickle.Stack"):
         c = repo.cls(cq)
